@@ -81,6 +81,13 @@ import (
 //@   ensures[C04@conc] r0 == nil ==> q.gseq[old(*q.tail)] == e.seqID && q.goff[old(*q.tail)] == e.offsetInShmBuf && q.gst[old(*q.tail)] == e.status && *q.tail == old(*q.tail) + 1
 //@   ensures[C04@conc] r0 != nil ==> r0 == ErrQueueFull && old(*q.tail) - hseen == q.cap && *q.tail == old(*q.tail)   // full only when it really was: at the instant head was read
 //@   ensures[C04@conc] qInv(q)
+// C05@conc: publishing an element makes this producer pending (pp+1) until its markWorking
+//@   requires[C05@conc] inv5(q)
+//@   interference[C05@conc] region(q.queueBytesOnMemory), q.pp, q.inflight, q.working, q.window, q.zs
+//@   rely[C05@conc] inv5(q) && *q.tail == old(*q.tail) && *q.head >= old(*q.head)       // the mutex keeps other producers out between Lock and Unlock; only the consumer moves head
+//@   guarantee[C05@conc] prodSteps5(q)
+//@   at call? sync/atomic.AddInt64#0 ghost[C05@conc] q.pp := q.pp + 1
+//@   ensures[C05@conc] inv5(q) && (r0 == nil ==> *q.tail == old(*q.tail) + 1)
 
 //@ func (*queue).pop
 //@   requires wfQueue(q)
@@ -1295,6 +1302,31 @@ func lemmaUpdateThenNew(s *bufferSlice) {
 //@   modifies heap
 
 // C05: the consumer-working flag
+// --- C05 under interference (variant runs markNotWorking@conc / markWorking@conc / put@conc) ---------------
+// Ghost protocol state of a queue: pp = producers that have published an element and not yet tried to take the
+// flag (every successful put is followed by one wakeUpPeer -> markWorking: checked on Flush/close), inflight =
+// notifications handed over and not yet picked up by the consumer's event loop, working = the consumer is inside
+// handlePolling, window = it has cleared the flag in markNotWorking and not yet decided, zs = tail when it
+// cleared the flag. inv5 is the protocol invariant; its last-but-one line is the property: with an idle
+// consumer and a clear flag every element in the queue belongs to a producer that is still going to try the
+// flag (and will get it: the flag is clear), and a set flag with an idle consumer has a notification in flight.
+//@ ghost field queue.pp: int
+//@ ghost field queue.inflight: int
+//@ ghost field queue.working: bool
+//@ ghost field queue.window: bool
+//@ ghost field queue.zs: int
+//@ pure inv5(q *queue): bool = wfQueue(q) && q.pp >= 0 && q.inflight >= 0 && (*q.workingFlag == 0 || *q.workingFlag == 1)
+//@ |   && (*q.workingFlag == 1 && !q.working ==> q.inflight > 0)
+//@ |   && (*q.workingFlag == 1 && q.working && q.window ==> q.inflight > 0)
+//@ |   && (*q.workingFlag == 0 && !q.working ==> *q.tail - *q.head <= q.pp)
+//@ |   && (*q.workingFlag == 0 && q.working && q.window ==> q.zs <= *q.tail && *q.tail - q.zs <= q.pp)
+//@ |   && (!q.working ==> !q.window)
+// steps of the producers (put publishes: tail+1, pp+1; markWorking: pp-1 and, if it takes the flag, inflight+1)
+//@ pure prodSteps5(q *queue): bool = *q.head == old(*q.head) && *q.tail >= old(*q.tail) && q.working == old(q.working) && q.window == old(q.window) && q.zs == old(q.zs)
+//@ |   && (*q.workingFlag == old(*q.workingFlag) || (old(*q.workingFlag) == 0 && *q.workingFlag == 1)) && q.inflight >= old(q.inflight) && inv5(q)
+// steps of the consumer inside handlePolling (pop: head+1; markNotWorking: clear, re-check, restore or go idle)
+//@ pure consSteps5(q *queue): bool = *q.tail == old(*q.tail) && *q.head >= old(*q.head) && q.pp == old(q.pp) && q.inflight == old(q.inflight) && inv5(q)
+
 //@ func (*queue).consumerIsWorking
 //@   requires wfQueue(q)
 //@   ensures  result <==> *q.workingFlag > 0
@@ -1307,6 +1339,15 @@ func lemmaUpdateThenNew(s *bufferSlice) {
 //@   ensures  !result ==> *q.workingFlag == old(*q.workingFlag)
 //@   ensures  wfQueue(q) && *q.head == old(*q.head) && *q.tail == old(*q.tail)
 //@   modifies *q.workingFlag
+// under interference by the consumer and the other producers; the caller is one of the pending producers
+// (its own unit of pp cannot be taken away by anybody else: `q.pp >= 1` in the rely)
+//@   requires[C05@conc] inv5(q) && q.pp >= 1
+//@   interference[C05@conc] region(q.queueBytesOnMemory), q.pp, q.inflight, q.working, q.window, q.zs
+//@   rely[C05@conc] inv5(q) && q.pp >= 1
+//@   guarantee[C05@conc] prodSteps5(q)
+//@   at call? sync/atomic.CompareAndSwapUint32#0 ghost[C05@conc] q.pp := q.pp - 1
+//@   at call? sync/atomic.CompareAndSwapUint32#0 ghost[C05@conc] q.inflight := ite(r0, q.inflight + 1, q.inflight)
+//@   ensures[C05@conc] inv5(q)
 
 // markNotWorking: clear the flag FIRST, then re-check the queue; leave (true) only through a re-check
 // that found the queue empty after the flag was cleared, otherwise restore the flag.
@@ -1321,6 +1362,18 @@ func lemmaUpdateThenNew(s *bufferSlice) {
 //@   ensures  wfQueue(q) && *q.head == old(*q.head) && *q.tail == old(*q.tail)
 //@   ensures  result <==> old(*q.tail) == old(*q.head)
 //@   modifies *q.workingFlag
+// under interference by the producers: size() is inlined (its two loads are two shared accesses)
+//@   inline[C05@conc] (*queue).size
+//@   requires[C05@conc] inv5(q) && q.working && !q.window
+//@   interference[C05@conc] region(q.queueBytesOnMemory), q.pp, q.inflight
+//@   rely[C05@conc] prodSteps5(q)
+//@   guarantee[C05@conc] consSteps5(q)
+//@   at call? sync/atomic.StoreUint32#0 ghost[C05@conc] q.window := true
+//@   at call? sync/atomic.StoreUint32#0 ghost[C05@conc] q.zs := *q.tail
+//@   at call? sync/atomic.StoreUint32#1 ghost[C05@conc] q.window := false
+//@   at return ghost[C05@conc] q.working := ite(result, false, q.working)
+//@   at return ghost[C05@conc] q.window := ite(result, false, q.window)
+//@   ensures[C05@conc] inv5(q) && (result ==> !q.working) && (!result ==> q.working && !q.window)
 
 // wakeUpPeer: the producer that wins the flag hands over exactly one polling event (written directly
 // or queued for the send goroutine); a producer that loses the flag sends nothing.
